@@ -130,6 +130,10 @@ def step (c impl : String) : String :=
         let (lim, cut) := limitOf k
         -- the streaming pipeline (no confirming Check) only runs for plain object subjects
         let usesCheck := !(eng = "p" && !isUserset w.req.user && !isTypedWildcard w.req.user)
+        if v = "HANG" then
+          [(s!"engine did not return: engine={k}" ++ (if eng = "p" then " (streaming pipeline: Pipeline.Close blocks after the deadline; teardown never reaches quiescence)" else ""), false)]
+        else if v.startsWith "PANIC" then [(s!"engine panicked: engine={k} {v}", false)]
+        else
         match parseList v with
         | none => []
         | some out =>
